@@ -383,8 +383,9 @@ pub fn matrix_format<T: ToString>(matrix: &Vec<Vec<T>>) -> String {
             .iter()
             .enumerate()
             .map(|(i, element)| {
-                let width = max_col_widths[i];
-                format!("{:>width$}", element, width = width)
+                // pad by hand: a width argument of `format!` must fit in 16 bits and panics otherwise
+                let padding = max_col_widths[i].saturating_sub(element.chars().count());
+                format!("{}{}", " ".repeat(padding), element)
             })
             .collect();
 
